@@ -34,6 +34,11 @@ CLAIMED['C04'] = dict(design='2/C04', text='Function::substitute is executed sym
     'Instance::substitute (one step and a two-step chain) followed by evaluate is compared with the original evaluated at the implied full assignment.',
     note='R-model with bounded coefficient magnitudes; HashMap order modelled as an arbitrary permutation; replacement maps with 3-4 entries are outside the bound; '
     'library models trusted and validated natively each run.')
+CLAIMED['C14'] = dict(design='2/C14', text='Instance::relax_constraint / restore_constraint are executed for every operation sequence of length <=4 (quick) / <=6 (thorough) over '
+    'relax(id)/restore(id) with known and unknown ids on an instance with 2 active + 1 removed constraint; after every step the solver-checked assertions are: the '
+    'collection of (id, function, equality, metadata) is unchanged, every id is in exactly one list, reasons are recorded, a failing operation leaves the instance '
+    'equal to before; after the sequence Instance::evaluate at a symbolic state gives unchanged per-constraint values and feasibility, relaxed feasibility = conjunction over the active ones.',
+    note='R-model; sequences longer than the bound (the property quantifies to 8) are outside; library models trusted and validated natively each run.')
 NOT_APPLICABLE = {
     'C20': 'artifact round-trip lives in ocipkg/tar/sha2/serde_json/chrono and the file system: none of it is in the crate MIR and all of it is foreign/IO under Kani; a model would verify the model, not the code',
 }
